@@ -1,7 +1,7 @@
 PROP = {
     "id": "C37",
     "theorem_modules": ["Verif.Properties.C37"],
-    "min_theorems": 14,
+    "min_theorems": 16,
     "required_theorems": [
         "Verif.Properties.C37.lexer_clear_complete",
         "Verif.Properties.C37.token_numbering_pinned",
@@ -9,6 +9,8 @@ PROP = {
         "Verif.Properties.C37.tokens_contiguous",
         "Verif.Properties.C37.lex_total",
         "Verif.Properties.C37.tokens_cover_input_partial",
+        "Verif.Properties.C37.linecol_exact_partial",
+        "Verif.Properties.C37.linecol_exact_all_good_partial",
         "Verif.Properties.C37.lex_loops_total_partial",
         "Verif.Properties.C37.linecol_witness_multibyte",
         "Verif.Properties.C37.linecol_witness_empty_token",
@@ -30,8 +32,11 @@ PROP = {
                   "are contiguous from offset 0 (tokens_contiguous, full); totality of the lexer port (lex_total, full: run's fuel "
                   "2*len+4 suffices, no second-backup panic, no slice panic, no exhausted loop fuel - by an invariant through all "
                   "seven state functions and the measure 2*(len-endOffset)+rank); coverage (tokens_cover_input_partial: after a stop "
-                  "in rootState without panic and without error token the last consuming token ends at len-1); line/column exactness is "
-                  "NOT proved: two column defects are proved as witnesses (known findings) and positions are judged per input "
+                  "in rootState without panic and without error token the last consuming token ends at len-1); line/column exactness "
+                  "(linecol_exact_partial: every non-empty consuming token ending in an ASCII byte, all of whose predecessors "
+                  "are such tokens, reports (line, column) = lineCol(input, offset) computed from scratch - via the invariant that "
+                  "startOffset/endOffset/prevEndOffset always lie on the rune-boundary chain of utf8.DecodeRune); the two column "
+                  "defects outside that region are proved as witnesses (known findings) and positions are judged per input "
                   "by the stream against Spec.LineCol; `decide` obligations over facts regenerated from /repo: clear() resets every field of the pooled "
                   "lexer to the model's initial state, token numbering, tokenLimit, the parser's two depth guards. Tied to "
                   "/repo by the `lex` stream (Go token list = port's token list, token by token, several inputs back to back "
